@@ -1362,12 +1362,12 @@ make_file_entry(struct archive_write *a, struct xml_writer *writer,
 			    "xml_writer_start_element() failed: %d", r);
 			return (ARCHIVE_FATAL);
 		}
-		r = xmlwrite_fstring(a, writer, "major",
-		    "%d", archive_entry_rdevmajor(file->entry));
+		r = xmlwrite_fstring(a, writer, "major", "%ju",
+		    (uintmax_t)archive_entry_rdevmajor(file->entry));
 		if (r < 0)
 			return (ARCHIVE_FATAL);
-		r = xmlwrite_fstring(a, writer, "minor",
-		    "%d", archive_entry_rdevminor(file->entry));
+		r = xmlwrite_fstring(a, writer, "minor", "%ju",
+		    (uintmax_t)archive_entry_rdevminor(file->entry));
 		if (r < 0)
 			return (ARCHIVE_FATAL);
 		r = xml_writer_end_element(writer);
@@ -1390,8 +1390,8 @@ make_file_entry(struct archive_write *a, struct xml_writer *writer,
 	if (r < 0)
 		return (ARCHIVE_FATAL);
 	if (archive_entry_dev(file->entry) != 0) {
-		r = xmlwrite_fstring(a, writer, "deviceno",
-		    "%d", archive_entry_dev(file->entry));
+		r = xmlwrite_fstring(a, writer, "deviceno", "%ju",
+		    (uintmax_t)archive_entry_dev(file->entry));
 		if (r < 0)
 			return (ARCHIVE_FATAL);
 	}
